@@ -106,20 +106,43 @@ def check_tx(c, tx, flags, all_idx=True, eps=None):
             variants.append((annex, None, 0xC0, None))
             variants.append((None, leaf, c.rng.choice([0xC0, 0xC0, 0xC2, 0x00, 0xFE]), None))
             variants.append((annex, leaf, 0xC0, c.rng.choice([0, 1, 0xFFFF, 0xFFFFFFFE])))
-            for (ax, scr, lv, cs) in variants:
+            # (annex, leaf, leaf version, codesep, spent scripts, spent amounts). `taproot_eq_bip341` is the full
+            # statement (every hash type - 0x80 and out-of-byte values included -, lists of every length): where BIP341
+            # defines no digest the spec answers `none` and embit has to refuse, so EVERY case is compared with the
+            # spec (proven=True), not only the seven BIP341 hash types with complete lists (audit A4 / C3).
+            variants = [v + (spks, values) for v in variants]
+            ax0, scr0, lv0, cs0 = c.rng.choice(variants)[:4]
+            wrong = c.rng.choice(["short", "long", "empty", "values-short"])
+            if wrong == "short":
+                variants.append((ax0, scr0, lv0, cs0, spks[:-1], values))
+            elif wrong == "long":
+                variants.append((ax0, scr0, lv0, cs0, spks + [gen.rbytes(c.rng, 34)], values))
+            elif wrong == "empty":
+                variants.append((ax0, scr0, lv0, cs0, [], values))
+            else:
+                variants.append((ax0, scr0, lv0, cs0, spks, values[:-1]))
+            for (ax, scr, lv, cs, spks_, values_) in variants:
                 ext = 1 if scr is not None else 0
-                t = tap_tokens(toks, idx, spks, values, f, ext, ax, scr, lv, cs)
-                tvalid = f in TAP_VALID
+                t = tap_tokens(toks, idx, spks_, values_, f, ext, ax, scr, lv, cs)
                 c.count(("taproot", t), nontrivial=True)
+                complete = len(spks_) == nin and len(values_) == nin
+                c.tally("taproot:" + ("lists-complete" if complete else "list-" + wrong))
+                if f == 0x80:
+                    c.tally("taproot:flag-0x80")
                 for name, obj in eps:
                     info = {"entry": name, "algo": "taproot", "tx": toks[:5000], "idx": idx, "flag": f,
-                            "annex": None if ax is None else hx(ax), "leaf": None if scr is None else hx(scr)}
-                    r = call(lambda: obj.sighash_taproot(idx, [Script(s) for s in spks], values, f, ext_flag=ext, annex=ax,
+                            "annex": None if ax is None else hx(ax), "leaf": None if scr is None else hx(scr),
+                            "n_scripts": len(spks_), "n_values": len(values_), "n_inputs": nin}
+                    r = call(lambda: obj.sighash_taproot(idx, [Script(s) for s in spks_], values_, f, ext_flag=ext, annex=ax,
                                                          script=None if scr is None else Script(scr), leaf_version=lv,
                                                          codeseparator_pos=cs))
-                    c.expect("sighash.taproot " + t, r, info, proven=tvalid)
-                    if tvalid:
-                        c.expect("sighash.taproot.spec " + t, r, dict(info, oracle="spec"), proven=True)
+                    c.expect("sighash.taproot " + t, r, info, proven=True)
+                    c.expect("sighash.taproot.spec " + t, r, dict(info, oracle="spec"), proven=True)
+                    # the property on embit itself, independent of model and spec: no digest outside BIP341's domain
+                    if r != "none" and (f not in TAP_VALID or not complete or idx >= nin):
+                        c.fail("sighash_taproot returns a digest where BIP341 defines none (hash type %#x, %d scripts / "
+                               "%d amounts for %d inputs, index %d)" % (f, len(spks_), len(values_), nin, idx),
+                               dict(info, op="taproot.domain", digest=r))
     c.sample({"tx": toks[:200], "flags": flags[:4], "indices": idxs[:4]})
 
 
@@ -256,7 +279,8 @@ def check_entry_points(c, b, toks, nin, meta, flags, label, spec_version_toks=No
                     rp = call(lambda: p.sighash(i, f, **kw)) if p is not None else "none"
                     rv = call(lambda: open_view(buf, off, vc).sighash(i, f, **kw))
                     c.count(("ep", label, vc, i, f, xt, b), nontrivial=True)
-                    valid = mi is not None and p is not None and f in (TAP_VALID if mi["algo"] == "taproot" else VALID)
+                    # taproot inputs: `psbt_sighash_taproot_consensus` holds for every hash type (spec `none` = refuse)
+                    valid = mi is not None and p is not None and (mi["algo"] == "taproot" or f in VALID)
                     c.expect("psbt.sighash %d %d %d %s %s" % (vc, i, f, xt, hx(b)), rp, dict(info, entry="psbt:" + label),
                              proven=valid)
                     c.expect("view.sighash %d %d %d %d %s %s" % (off, vc, i, f, xt, hx(buf)), rv,
@@ -308,10 +332,21 @@ def check_view_algos(c, tx, b, label):
                      proven=valid)
             leaf = gen.gen_script(rng)
             kw = rng.choice([{}, {"ext_flag": 1, "script": Script(leaf)}, {"annex": b"\x50\x01"}])
-            r = call(lambda: v.sighash_taproot(i, [Script(s) for s in spks], values, f, **kw))
-            lst = " ".join([str(len(spks))] + [hx(s) for s in spks] + [str(len(values))] + [str(x) for x in values])
+            # the view's copy of sighash_taproot: full statement too (every hash type, every list length, every index);
+            # one case in four hands over a list of spent scripts of the wrong length
+            spks_ = spks if rng.random() < 0.75 else rng.choice([spks[:-1], spks + [b"\x51"], []])
+            r = call(lambda: v.sighash_taproot(i, [Script(s) for s in spks_], values, f, **kw))
+            lst = " ".join([str(len(spks_))] + [hx(s) for s in spks_] + [str(len(values))] + [str(x) for x in values])
+            tinfo = dict(info, algo="taproot", n_scripts=len(spks_), n_inputs=nin)
             c.expect("view.sighash.taproot %d %d %s %d %s %s" % (off, i, lst, f, extra_tokens(kw), hx(buf)), r,
-                     dict(info, algo="taproot"), proven=(f in TAP_VALID and i < nin))
+                     tinfo, proven=True)
+            c.expect("sighash.taproot.spec " + tap_tokens(
+                toks, i, spks_, values, f, kw.get("ext_flag", 0), kw.get("annex"),
+                None if kw.get("script") is None else kw["script"].data, kw.get("leaf_version", 0xC0),
+                kw.get("codeseparator_pos")), r, dict(tinfo, oracle="spec"), proven=True)
+            if r != "none" and (f not in TAP_VALID or len(spks_) != nin or i >= nin):
+                c.fail("PSBTView.sighash_taproot returns a digest where BIP341 defines none (hash type %#x, %d scripts "
+                       "for %d inputs, index %d)" % (f, len(spks_), nin, i), dict(tinfo, op="taproot.domain", digest=r))
 
 
 def strip_v2_txversion(b):
@@ -353,13 +388,15 @@ def run(tier, seed):
     c = Check(PROP, MODS, tier, seed)
     c.rule = ("seeded random unsigned transactions (1-6 inputs, 0-6 outputs, occasionally 252-300; boundary 32/64-bit fields) "
               "x every input index incl. >= number of outputs and >= number of inputs x the 8 valid flags (+ invalid ones) "
-              "x {legacy, BIP143, BIP341 key path / script path / annex / codeseparator} x entry points {Transaction, "
+              "x {legacy, BIP143, BIP341 key path / script path / annex / codeseparator, one list of spent scripts / "
+              "amounts of the wrong length per index and flag} x entry points {Transaction, "
               "PSBT v0, PSBT v2, PSBTView v0, PSBTView v2 at a stream offset}; distinct by content, non-trivial when "
               ">1 input or flag not in {DEFAULT, ALL} or taproot. Entry points: seeded PSBTs (v0 / v2 / v2 without tx version) "
               "whose inputs are p2pkh, bare, p2sh, p2wpkh, p2sh-p2wpkh, p2wsh, p2sh-p2wsh, p2tr (with non-witness and / or "
               "witness utxo), plus PSBTs with arbitrary field combinations; PSBT.sighash and PSBTView.sighash (stream "
               "offsets, reader modes 0/1/2, taproot kwargs) x every input x flags")
-    c.assumptions = ["taproot hash type 0x80 has no BIP341 digest; it is compared with the model only",
+    c.assumptions = ["taproot: hash type 0x80 and lists of spent scripts / amounts of the wrong length have no BIP341 digest; "
+                     "embit, model and spec all have to refuse (compared with the spec, proven=True)",
                      "scriptCode is an argument (OP_CODESEPARATOR / FindAndDelete are the caller's, as in embit)"]
     c.build_and_audit()
     explore(c, 30 if tier == "quick" else 600, big=(tier != "quick"))
